@@ -36,3 +36,41 @@ Theorem C04_single_segment_is_its_offset_rectangle_partial : forall a b n w st,
                LineTo a; Close] NonZero).
 Proof. exact stroke_single_segment_butt. Qed.
 Print Assumptions C04_single_segment_is_its_offset_rectangle_partial.
+
+(* ---- the outline of a whole polyline (StrokeShape.v) ---- *)
+Require Import RQ.StrokeShape.
+
+(* open polyline, any points (zero-length segments are skipped by segs): the outline is, in this order, the offset
+   rectangle of the first segment, then for every further segment the join with its predecessor followed by its own
+   rectangle, then the cap at the end point (last normal) and the cap at the start (first normal reversed) - all built by
+   the stroker's own segment_piece / join_line / cap_line; always NonZero *)
+Theorem C04_open_polyline_is_pieces_joins_caps_partial : forall p0 pts w st,
+  fle (s_width st) f0 = false ->
+  stroke_to_path (mk_path (MoveTo p0 :: map LineTo pts) w) st =
+  Ok (mk_path (rev (open_outline st (half_width st) (segs p0 pts) (end_pt p0 pts))) NonZero).
+Proof. exact stroke_open_polyline_gen. Qed.
+Print Assumptions C04_open_polyline_is_pieces_joins_caps_partial.
+
+(* closed polyline: no caps, a join at every vertex including the closing vertex; the closing segment is part of
+   cyc_segs when it has a length *)
+Theorem C04_closed_polyline_is_pieces_and_joins_partial : forall p0 pts w st,
+  fle (s_width st) f0 = false ->
+  stroke_to_path (mk_path (MoveTo p0 :: map LineTo pts ++ [Close]) w) st =
+  Ok (mk_path (rev (closed_outline st (half_width st) (cyc_segs p0 pts))) NonZero).
+Proof. exact stroke_closed_polyline_gen. Qed.
+Print Assumptions C04_closed_polyline_is_pieces_and_joins_partial.
+
+(* any number of such subpaths: the outlines one after the other *)
+Theorem C04_polylines_partial : forall sps w st,
+  fle (s_width st) f0 = false ->
+  stroke_to_path (mk_path (flat_map subpath_ops sps) w) st =
+  Ok (mk_path (flat_map (fun sp => rev (subpath_outline st (half_width st) sp)) sps) NonZero).
+Proof. exact stroke_polylines. Qed.
+Print Assumptions C04_polylines_partial.
+
+(* one piece is the rectangle of half-width hw around its segment: a+n*hw, b+n*hw, b, b-n*hw, a-n*hw, a *)
+Theorem C04_segment_piece_is_the_offset_rectangle_partial : forall out a b n hw,
+  segment_piece out a b n hw = rev (polygon [poff a n hw; poff b n hw; b; poff b (vflip n) hw; pofm a n hw; a]) ++ out.
+Proof. exact segment_piece_points. Qed.
+Print Assumptions C04_segment_piece_is_the_offset_rectangle_partial.
+(* further lemmas of the same file: bevel_points, miter_points, miter_beyond_limit_points, round_join_points, square_cap_points, butt_cap_points, round_cap_points, stroke_op_zero_length *)
